@@ -2,4 +2,4 @@
 From Coq Require Import Extraction ExtrOcamlBasic ZArith List String.
 From GR Require Import Base.Result IR.State IU.Model.
 Extraction Language OCaml.
-Extraction "iu_model.ml" split_byte_interval join_byte_intervals mk_iblk Z.add Z.of_nat String.eqb.
+Extraction "iu_model.ml" split_byte_interval join_byte_intervals abi_nop mk_iblk Z.add Z.of_nat String.eqb.
